@@ -118,6 +118,31 @@ def check_selection(seed, n_cases, n_max=4, debug=False):
                 v = one_selection(cw, R, X, None, False, False)
                 if v:
                     viol.append(dict(kind="history", check="selection", seed=seed, index=-cases, world=cw.describe(), insert_order=list(perm), R=R, X=X, T=None, flag=False, violations=v))
+    if debug:
+        # deterministic: a debug node d with k = 2, 3 parents (all roots) and a debug node e behind it; EVERY selection of a
+        # non-empty subset of the parents by target / root / exclusion of the rest, flag on: d (and e) may be pulled in
+        # only when ALL of d's parents are selected, whatever order the traversal meets them in
+        import itertools
+
+        for k in (2, 3):
+            ps = [NAMES[i] for i in range(k)]
+            for chain in (False, True):
+                for r in range(1, k + 1):
+                    for sub in itertools.combinations(ps, r):
+                        for how in ("target", "root", "exclude"):
+                            nodes = [dict(id=p_, deps=[], prio=0, seq=False, res="thread") for p_ in ps]
+                            nodes.append(dict(id="x", deps=[(p_, []) for p_ in ps], prio=0, seq=False, res="thread", debug=True))
+                            if chain:
+                                nodes.append(dict(id="y", deps=[("x", [])], prio=0, seq=False, res="thread", debug=True))
+                            cw = World(nodes)
+                            rest = [p_ for p_ in ps if p_ not in sub]
+                            if how == "exclude" and not rest:
+                                continue
+                            R, X, T = (list(sub), None, None) if how == "root" else (None, rest, None) if how == "exclude" else (None, None, list(sub))
+                            cases += 1
+                            v = one_selection(cw, R, X, T, True, True)
+                            if v:
+                                viol.append(dict(kind="history", check="selection", seed=seed, index=-cases, debug=True, world=cw.describe(), R=R, X=X, T=T, flag=True, violations=v))
     for idx in range(n_cases):
         w = rand_world(rnd, rnd.randint(2, n_max), debug_p=0.35 if debug else 0.0, tags=True)
         ids = list(w.order)
@@ -180,6 +205,9 @@ def one_selection(w, R, X, T, flag, debug, by_ref=False):
             if w.calls:
                 v.append("a node ran although the selection was refused")
             return v
+        except Exception as e:  # noqa: BLE001
+            v.append(f"executor(R={R} X={X} T={T}) raised {type(e).__name__}: {e}" + (" (a ValueError is the documented refusal)" if want_err else " for a legal selection"))
+            return v
         if want_err:
             v.append(f"selection R={R} X={X} T={T} should raise ValueError (non-root / target outside the selection)")
             return v
@@ -199,7 +227,14 @@ def one_selection(w, R, X, T, flag, debug, by_ref=False):
                     v.append(f"[C13] debug node {a} pulled in although its inputs {[d for d in w.all_deps(a) if d not in got]} are not selected")
         # C02: a selected sub-graph keeps EVERY dependency edge between two selected nodes (the scheduler orders by them)
         w_edges = {(d, n) for n in w.order for d in w.all_deps(n) if d in w.nodes}
-        for label, g in (("executor graph", ex.graph), ("make_subgraph result", dag.graph_ids.make_subgraph(target_nodes=T, exclude_nodes=X, root_nodes=R))):
+        try:
+            direct = dag.graph_ids.make_subgraph(target_nodes=T, exclude_nodes=X, root_nodes=R)
+        except Exception as e:  # noqa: BLE001
+            direct = None
+            v.append(f"make_subgraph raised {type(e).__name__}: {e} for the legal selection R={R} X={X} T={T}")
+        for label, g in (("executor graph", ex.graph), ("make_subgraph result", direct)):
+            if g is None:
+                continue
             sel = set(g.nodes)
             exp_e = {(a, b) for a, b in w_edges if a in sel and b in sel}
             if set(g.edges) != exp_e:
